@@ -188,11 +188,12 @@ func min[T constraints.Integer](v1, v2 T) T {
 func intersect[T constraints.Integer](intv Interval[T], inters []Interval[T]) ([]Interval[T], int) {
 	intvs := make([]Interval[T], 0, 1)
 
+	// cnt is number of intervals in inters which cannot intersect any
+	// interval following intv.
 	var cnt int
 	for _, inter := range inters {
-		cnt++
-
 		if inter.End() <= intv.Begin() {
+			cnt++
 			continue
 		}
 
@@ -203,9 +204,16 @@ func intersect[T constraints.Integer](intv Interval[T], inters []Interval[T]) ([
 		begin := max(intv.Begin(), inter.Begin())
 		end := min(intv.End(), inter.End())
 		intvs = append(intvs, New(begin, end))
+
+		// An interval reaching behind intv can intersect following
+		// intervals as well, so it has to be inspected again.
+		if intv.End() < inter.End() {
+			break
+		}
+		cnt++
 	}
 
-	return intvs, cnt - 1
+	return intvs, cnt
 }
 
 func MapIntersect[T constraints.Integer](i1, i2 Map[T]) Map[T] {
